@@ -22,6 +22,8 @@ def simulate(case):
     w = World1(role, S=CFG["S"], T=CFG["T"], hb=hb)
     try:
         c = w.c
+        if case.get("disc_raises"):
+            c.raise_on_disconnect = True  # the application's on_disconnect callback fails
         w.connect()
         w.logon(hb=hb)
         if c.connection_state.name != "ACTIVE":
@@ -81,7 +83,7 @@ def simulate(case):
                     w.peer("D", None, [(11, f"g{k}")])
                 elif kind in ("tr", "tr_gap"):
                     nid += 1
-                    rid = f"P{nid}"
+                    rid = f"P{nid}" if nid % 2 else f"k=v{nid}=="  # '=' is legal inside a FIX String
                     if kind == "tr_gap":
                         w.peer_seq += 1  # one earlier message of the peer was lost: this one is numbered too high
                     w.peer("1", None, [(112, rid)])
@@ -141,7 +143,7 @@ def simulate(case):
                     d = refs.fdict(f) if f else {}
                     if d.get("35") == "1":
                         tl["life2_tr"].append((k, d.get("112")))
-                        if c.connection_state.value > 3:
+                        if c.connection_state.value > 3 and case.get("second_life_peer", "responsive") == "responsive":
                             w.peer("0", None, [(112, d.get("112"))])
                 if c.connection_state.value <= 3:
                     tl["life2_disc"] = k
@@ -238,6 +240,11 @@ def judge(case, tl):
     if case.get("second_life") and tl.get("life2_state0") is not None:
         if tl["life2_state0"] != "ACTIVE":
             V("no_session_after_reconnect", hbclass, "a new session on the same connection object is established", state=tl["life2_state0"])
+        elif case.get("second_life_peer") == "dead":
+            if not tl["life2_tr"] or tl["life2_tr"][0][0] > hq + int(2 / Q) + 4:
+                V("no_testrequest_after_silence", f"{hbclass}:second_session", "when nothing has been received for about one heartbeat interval the connection sends a TestRequest")
+            elif tl["life2_disc"] is None:
+                V("dead_peer_not_disconnected", f"{hbclass}:second_session", "when the peer stays silent it disconnects within about three intervals")
         elif tl["life2_disc"] is not None:
             V("responsive_peer_disconnected", f"{hbclass}:after_reconnect_following_watchdog_disconnect", "a peer that answers each TestRequest is never disconnected by the watchdog", disconnected_at=tl["life2_disc"])
     if tl["ndisc"] > (2 if case.get("second_life") and tl.get("life2_disc") is not None else 1):
@@ -264,6 +271,9 @@ def scripted_cases(quick):
                     cases.append(mk())  # silent from t0
                     if role == "acceptor" and order == "timers":
                         cases.append(mk(second_life=6 * hq))  # dead peer, then a new session on the same object
+                        # ... whose peer is dead as well; the application's on_disconnect callback fails the first time
+                        cases.append(mk(second_life=4 * hq + 16, second_life_peer="dead"))
+                        cases.append(mk(second_life=4 * hq + 16, second_life_peer="dead", disc_raises=True))
                         for d in sorted({0, hq}):
                             cases.append(mk(answer=("right_gap", d)))  # echo numbered above expectation
                         cases.append(mk(arrivals={2: ["tr_gap"], hq + 2: ["tr_gap"]}, answer=("right", 0)))
